@@ -24,7 +24,7 @@ ASSUMPTIONS = c01.ASSUMPTIONS + ["assignments are fitting: same structure, strin
 
 
 def budget(tier):
-    return {"examples": 250 if tier == "quick" else 3000}
+    return {"examples": 800 if tier == "quick" else 8000}
 
 
 def essential_labels(tier):
